@@ -212,9 +212,8 @@ class MultitaskMultivariateNormal(MultivariateNormal):
 
     def log_prob(self, value):
         if not self._interleaved:
-            # flip shape of last two dimensions
-            new_shape = value.shape[:-2] + value.shape[:-3:-1]
-            value = value.view(new_shape).transpose(-1, -2).contiguous()
+            # the covariance is ordered task-major (index a * n + i): flatten the n x t value accordingly
+            value = value.transpose(-1, -2)
         return super().log_prob(value.reshape(*value.shape[:-2], -1))
 
     @property
